@@ -142,13 +142,24 @@ def pending_first(ctx, prop, rule):
     proofs for the same request (defect D21).  Clause: no `Ok(Right(position))` can be reached from
     a place that recorded an instruction, except under `instructions.is_empty()`."""
     n = 0
-    for nm in ("tree::merkle_tree::MerkleTree::seek_from_head", "tree::merkle_tree::MerkleTree::seek_untrusted_tree", "tree::merkle_tree::MerkleTree::seek_trusted_tree"):
+    ANCH = ("tree::merkle_tree::MerkleTree::seek_from_head", "tree::merkle_tree::MerkleTree::seek_untrusted_tree", "tree::merkle_tree::MerkleTree::seek_trusted_tree")
+    for nm in ANCH:
+        need(ctx, prop, rule, nm, ctx.fn(nm))
+    # the three seek functions are the anchors (they had the defect); every other function of the
+    # crate written in the same idiom — it records read instructions and returns Right(answer) —
+    # is held to the same clause (cross-check of siblings)
+    def records(fx):
+        return [s_ for s_, t_ in fx.calls() if (t_.get("callee") or "").split("::")[-1] in ("push", "extend", "extend_from_slice") and "StoreInfoInstruction" in (t_.get("callee_full") or "") + " ".join(t_.get("arg_tys") or [])]
+    names = list(ANCH) + sorted(set(fn_of(fx.body.name) for fx in ctx.all_fas() if "::tests::" not in fx.body.name and records(fx)) - set(ANCH))
+    for nm in names:
         fa = ctx.fn(nm)
-        if not need(ctx, prop, rule, nm, fa):
+        if fa is None:
             continue
         short = nm.split("::")[-1]
-        rec = [s_ for s_, t_ in fa.calls() if (t_.get("callee") or "").split("::")[-1] in ("push", "extend", "extend_from_slice") and "StoreInfoInstruction" in (t_.get("callee_full") or "") + " ".join(t_.get("arg_tys") or [])]
-        if not need(ctx, prop, rule, "%s: places that record a read instruction" % short, rec):
+        rec = records(fa)
+        if not rec:
+            if nm in ANCH:
+                ctx.missing(prop, rule, "%s: places that record a read instruction" % short, "none found")
             continue
         empt = [tr for _, o, tr, fl in bool_switches(fa, lambda o: o[0] == "call" and o[2].split("::")[-1] == "is_empty") if tr is not None]
         bad = []
@@ -161,8 +172,8 @@ def pending_first(ctx, prop, rule):
         ctx.check(prop, rule, "%s gives no answer while a read instruction is pending" % short, not bad, "every Ok(Right(position)) reachable from a recorded instruction lies under instructions.is_empty()",
                   "%s can return a position at %s after it recorded a read instruction for a node that was not in memory: the arithmetic went on without that node's length, and the answer depends on whether the node cache is enabled and on what has been flushed" % (short, bad),
                   bad, key="%s|%s|%s|answer while instructions pending" % (prop, rule, short))
-    if n < 4 and ctx.crate.name == "hypercore":
-        ctx.missing(prop, rule, "Ok(Right(..)) results of the seek functions", "found %d (floor 4)" % n)
+    if n < 12 and ctx.crate.name == "hypercore":
+        ctx.missing(prop, rule, "Ok(Right(..)) results of the instruction-recording functions", "found %d (floor 12)" % n)
 
 
 def r7(ctx):
